@@ -1,6 +1,8 @@
 package main
 
 import (
+	"github.com/zmap/zlint/v3/formattedoutput"
+	"os"
 	"bytes"
 	"encoding/json"
 	"fmt"
@@ -23,6 +25,24 @@ func init() {
 		rng := NewRng(seedFromEnv(), "c14")
 		lateRegistrationPrelude()
 		reportLate(out, "C14", "json", "names")
+		// every other public consumer of results runs once first (the summary tables of both kinds, printed to /dev/null):
+		// whatever they do to shared tables is then in place for the round trips below
+		{
+			if devnull, err := os.OpenFile(os.DevNull, os.O_WRONLY, 0); err == nil {
+				saved := os.Stdout
+				os.Stdout = devnull
+				func() {
+					defer func() { recover() }()
+					if c := loadCorpus(); len(c.Certs) > 0 {
+						rs := zlint.LintCertificate(c.Certs[0].Cert)
+						formattedoutput.OutputSummary(rs, false)
+						formattedoutput.OutputSummary(rs, true)
+					}
+				}()
+				os.Stdout = saved
+				devnull.Close()
+			}
+		}
 		// ---- labels
 		for s := -2; s <= 10; s++ {
 			st := lint.LintStatus(s)
